@@ -453,6 +453,28 @@ def behaviour_check(ctx, pid):
         if x.startswith('Ok(x'):
             grammars.append((g, s, x))
     grammars += accepted_grammars(ctx, ng, behaviour=True, max_nts=4, max_terms=4, motifs=0.7, wide=0.15)
+    # the FIRST map on its own (hook first_sets vs FIRST by its defining rules): a grammar with a wrong entry is put into
+    # contexts where the entry is consulted, and those grammars join the run (so that a sentence they reject is found)
+    nfm = ctx.n(6000, 40000)
+    fgs = [gen.gen_first_stress(ctx.rng, behaviour=True) for _ in range(nfm)]
+    fsrcs = [gen.render(ctx.rng, g, 'plain') for g in fgs]
+    fr = vlib.run_rust('fm', checks.hex_lines(fsrcs))
+    probes = []
+    for g, x in zip(fgs, fr):
+        got = checks.parse_fm(x)
+        if got is None:
+            continue
+        first, nullable = gen.first_reference(g)
+        bad = [a for a in first if a not in got or set(got[a][0]) != first[a] or got[a][1] != nullable[a]]
+        for a in bad[:2]:
+            probes += [g] + gen.first_probe_variants(g, a, behaviour=True)
+    for g in probes[:12]:
+        s = gen.render(ctx.rng, g, 'plain')
+        x = vlib.run_rust('gen', checks.hex_lines([s]))[0]
+        if x.startswith('Ok(x'):
+            grammars.append((g, s, x))
+    res.extra['first_maps_compared'] = nfm
+    res.extra['first_map_probe_grammars'] = len(probes)
     inputs = [inputs_for(ctx, g, ctx.n(12, 60), ctx.n(20, 120), ctx.n(8, 60), exhaustive_len=ctx.n(3, 6)) for g, _, _ in grammars]
     srcs = [s for _, s, _ in grammars]
     # implementation: compile the real emitted text and run it
